@@ -39,9 +39,9 @@ PROPS = {
         explanation='Every reader function brought under contract is panic-, overflow- and OOB-free for ALL its inputs: fixed-size parsers (intro, index entry, lead) by complete Kani proofs; Header::parse / parse_header incl. the per-type decode loop / parse_signature / PackageMetadata::parse / Package::parse / verify_digests / verify_signature / segment offsets / cpio Reader::new, read, finish, FileIterator::next by Verus on the verbatim bodies; decode helpers, getters and echo_signature by bounded Kani harnesses.',
     ),
     'C05': dict(
-        level='proof', verus=['c01_parse', 'c05_accessors', 'c05_getters', 'c05_paths'],
+        level='proof', verus=['c01_parse', 'c05_accessors', 'c05_getters', 'c05_paths', 'c05_entries'],
         trusted_base=[A_TOOLS, A_EXTRACT, 'A-LEAF-LINK: decode helper contracts = K:k_take_till_nul, k_parse_binary_entry, k_dec_u16/u32/u64 on the real functions with real nom', 'A-LOSSY: from_utf8_lossy is a total function of the bytes'],
-        assumptions=['get_scriptlet and the nine (now ten, with get_verify_script) scriptlet accessors: Ok exactly when the body is stored as a string under the script tag of THAT kind, flags and interpreter from the two other tags of that kind (absent when missing or ill-typed). get_dependencies (and through it get_provides .. get_supplements) and get_changelog_entries: entry i is built from item i of the three arrays stored under the tags of that kind, in order, up to the shortest array; an error when an array is missing or ill-typed, the empty list when all three are absent (R41: Vec::from_iter(multizip(..).map(f)) as a helper contract, the mapping closure verified). get_file_paths (unit c05_paths): path i is DIRNAMES[DIRINDEXES[i]] joined with BASENAMES[i], in order, up to the shorter of the two arrays; an index outside DIRNAMES is an error (R43: zip + try_fold as the fold of the verbatim closure, with an induction lemma over the fold; Path::join is an uninterpreted function of the two texts). NOT covered: get_file_entries (multizip of nine / enumerate / try_fold / try_fold / collect / Path::join bodies that Verus rejects and CBMC cannot finish): "file lists assembled as directory[dirindex]+basename" and "lists zipped in order" are not decided',
+        assumptions=['get_scriptlet and the nine (now ten, with get_verify_script) scriptlet accessors: Ok exactly when the body is stored as a string under the script tag of THAT kind, flags and interpreter from the two other tags of that kind (absent when missing or ill-typed). get_dependencies (and through it get_provides .. get_supplements) and get_changelog_entries: entry i is built from item i of the three arrays stored under the tags of that kind, in order, up to the shortest array; an error when an array is missing or ill-typed, the empty list when all three are absent (R41: Vec::from_iter(multizip(..).map(f)) as a helper contract, the mapping closure verified). get_file_paths (unit c05_paths): path i is DIRNAMES[DIRINDEXES[i]] joined with BASENAMES[i], in order, up to the shorter of the two arrays; an index outside DIRNAMES is an error (R43: zip + try_fold as the fold of the verbatim closure, with an induction lemma over the fold; Path::join is an uninterpreted function of the two texts). get_file_entries: only the BODY of its fold closure is under contract (block e1_file_entry of unit c05_entries: entry idx is built from the idx-th items handed to it, owner and group not swapped, capability / IMA signature taken at idx, digest text kept with the algorithm, a malformed digest the only error); that the multizip / enumerate / try_fold around it hands the closure item idx of each array, and the fetching of the ten arrays, are NOT covered / try_fold / collect / Path::join bodies that Verus rejects and CBMC cannot finish): "file lists assembled as directory[dirindex]+basename" and "lists zipped in order" are not decided',
                      'typed getters: the look-up find_entry_or_err (Iterator::find with a closure) is a bounded Kani proof (3-entry headers, symbolic tags in any order) and an assumed contract in Verus; everything after it - the IndexData::as_* projections and the six getters the accessors use - is proved for headers of any size in unit c05_getters (error payload strings dropped, R12)'],
         explanation='parse_header (verbatim, incl. the real decode loop): for EVERY entry of every accepted header the stored data equals an independent decoding of the store bytes written as spec functions (strings up to the first NUL, integer arrays big-endian at full length, string / i18n arrays item by item with terminators skipped, binary verbatim) - postcondition decoded(entry, store), unbounded; typed getters return the data of the first entry with the tag iff its type matches, else the documented error (unit c05_getters on the verbatim getters and as_* projections, for any number of entries, over the find_entry_or_err contract that K:k_getters_* establish for 3 entries); the 18 scalar accessors of PackageMetadata (name, version, release, epoch, arch, vendor, url, vcs, license, packager, build host/time, cookie, source rpm, summary, description, group, installed size) return what the getter gives for the rpm tag number they are named after; get_installed_size prefers LONGSIZE then SIZE.',
     ),
@@ -148,9 +148,9 @@ FIX_COMMITS = [
 ]
 
 PROPS['C06'] = dict(
-    level='proof', verus=['c06_blocks', 'c06_add_data', 'c06_files', 'c06_deps', 'c05_accessors', 'c05_paths', 'c09_from_entries'],
+    level='proof', verus=['c06_blocks', 'c06_add_data', 'c06_files', 'c06_deps', 'c05_accessors', 'c05_paths', 'c05_entries', 'c09_from_entries'],
     trusted_base=[A_TOOLS, A_EXTRACT, 'A-PATH-SEM: Path::parent / file_name / strip_prefix(".") on clean paths behave as std documents (axioms of unit c06_add_data; K:k_path_semantics checks four fixed paths on the real std::path)', 'BLOCK contracts on verbatim statement ranges of PackageBuilder::prepare_data (the function as a whole is not verified); the transport between the emitted records and the accessors is covered by other checks: from_entries keeps every record (unit c09_from_entries), write/parse reproduce and decode it (C01/C05), typed getters find it (K:k_getters_*)'],
-    assumptions=['claimed per part (the function prepare_data as a whole is not verified; the glue between the parts is by reading): SCALARS - name, epoch, version, release, arch, licence, summary, description, group, vendor, packager, URL, VCS, cookie - each is emitted under its rpm tag with its type (blocks b6, b7) and the accessor of that name reads exactly that tag and type (unit c05_accessors); each of the nine scriptlet kinds is emitted by Scriptlet::apply (function contract) under the script / flags / interpreter tags of THAT kind (blocks b9_*, composed by lemma_scriptlet_chain). for every clean destination "<d>/<n>" or ".<d>/<n>" (d a possibly empty sequence of normal components, so files directly under the root are included) add_data records directory "<d>/", base name "<n>" and archive path ".<d>/<n>" (unit c06_add_data; the documented behaviour of std::path on such paths is ASSUMED as axioms A-PATH-SEM, sanity-linked by K:k_path_semantics on four fixed paths). Per-file data, EMITTING half (unit c06_files): one iteration of the file loop appends exactly the size of that file, mode word, clamped mtime, digest, link target, flags, owner, group, verify flags, base name and the index of ITS directory to the parallel arrays (block b10; precondition: the directory is in the directory set of the builder, which add_data establishes), and the arrays are emitted under the tags and types rpm prescribes (block b11); the build host is emitted when set (b8); sizes go out as LONGFILESIZES exactly when they add up to more than u32::MAX, else narrowed to FILESIZES without a reachable panic (b13, b12). Dependencies and changelog, EMITTING half (unit c06_deps): for each of the eight kinds the three arrays are the names, flags and versions of the list of the builder in order (loop blocks d_*) and are emitted under the three tags of THAT kind when the list is not empty, the provides always (blocks r_*); the changelog names, texts and times are emitted in order (r_changelog); the read-back of dependencies (get_dependencies, get_provides .. get_supplements) and of the changelog (get_changelog_entries) is proved in unit c05_accessors against the same numeric tags: entry i from item i of the three arrays, in order. The read-back of scriptlets is get_scriptlet and the ten get_*_script accessors in unit c05_accessors (same numeric tags as the emitting blocks b9_*). NOT covered: the dependencies the builder adds itself to the lists, get_file_entries (read-back of the per-file data other than the path: multizip / try_fold code; the path itself is get_file_paths, unit c05_paths: directory[dirindex] joined with the base name), the FILECAPS record, uniqueness of the emitted tags across blocks, the builder setters themselves',
+    assumptions=['claimed per part (the function prepare_data as a whole is not verified; the glue between the parts is by reading): SCALARS - name, epoch, version, release, arch, licence, summary, description, group, vendor, packager, URL, VCS, cookie - each is emitted under its rpm tag with its type (blocks b6, b7) and the accessor of that name reads exactly that tag and type (unit c05_accessors); each of the nine scriptlet kinds is emitted by Scriptlet::apply (function contract) under the script / flags / interpreter tags of THAT kind (blocks b9_*, composed by lemma_scriptlet_chain). for every clean destination "<d>/<n>" or ".<d>/<n>" (d a possibly empty sequence of normal components, so files directly under the root are included) add_data records directory "<d>/", base name "<n>" and archive path ".<d>/<n>" (unit c06_add_data; the documented behaviour of std::path on such paths is ASSUMED as axioms A-PATH-SEM, sanity-linked by K:k_path_semantics on four fixed paths). Per-file data, EMITTING half (unit c06_files): one iteration of the file loop appends exactly the size of that file, mode word, clamped mtime, digest, link target, flags, owner, group, verify flags, base name and the index of ITS directory to the parallel arrays (block b10; precondition: the directory is in the directory set of the builder, which add_data establishes), and the arrays are emitted under the tags and types rpm prescribes (block b11); the build host is emitted when set (b8); sizes go out as LONGFILESIZES exactly when they add up to more than u32::MAX, else narrowed to FILESIZES without a reachable panic (b13, b12). Dependencies and changelog, EMITTING half (unit c06_deps): for each of the eight kinds the three arrays are the names, flags and versions of the list of the builder in order (loop blocks d_*) and are emitted under the three tags of THAT kind when the list is not empty, the provides always (blocks r_*); the changelog names, texts and times are emitted in order (r_changelog); the read-back of dependencies (get_dependencies, get_provides .. get_supplements) and of the changelog (get_changelog_entries) is proved in unit c05_accessors against the same numeric tags: entry i from item i of the three arrays, in order. The read-back of scriptlets is get_scriptlet and the ten get_*_script accessors in unit c05_accessors (same numeric tags as the emitting blocks b9_*). NOT covered: the dependencies the builder adds itself to the lists, get_file_entries beyond the body of its fold closure (block e1_file_entry, unit c05_entries; the path itself is get_file_paths, unit c05_paths: directory[dirindex] joined with the base name), the FILECAPS record, uniqueness of the emitted tags across blocks, the builder setters themselves',
                  'R12: `opt.unwrap_or_else(|| s.clone())` is rewritten to a helper with the same value'],
     explanation='For every builder state: the record list assembled by prepare_data contains RPMTAG_NAME/VERSION/RELEASE/LICENSE/ARCH as strings, EPOCH as int32, SUMMARY/DESCRIPTION/GROUP as single-locale i18n strings (description defaulting to the summary), and VENDOR/PACKAGER/URL/VCS/COOKIE whenever set, each with exactly the value given; every scriptlet given (pre/post install, uninstall, trans, untrans and verify) appears with its body as a string, its flags as int32 and its interpreter as a string array under the three tags of its kind, earlier records untouched; and get_name ... get_cookie read exactly those tags with those types.',
     technique='contract-based deductive verification (Verus): block contracts on verbatim statement ranges + function contracts on the accessors',
